@@ -55,6 +55,7 @@ func TestVerifReplay(t *testing.T) {
 		last[w] = m.Read(w)
 	}
 	n := 0
+	done := 0
 	func() {
 		defer func() {
 			if r := recover(); r != nil {
@@ -65,10 +66,13 @@ func TestVerifReplay(t *testing.T) {
 			n++
 			// a byte that the engine says is consumed in cycle k holds its value only during cycle k
 			for _, r := range reads {
-				if r.Cycle == n || r.Cycle == 0 {
-					m.Write(r.Addr, r.Val)
-				} else if r.Cycle > 0 {
+				if r.Cycle != n {
 					m.Write(r.Addr, r.Val^0xff)
+				}
+			}
+			for _, r := range reads {
+				if r.Cycle == n {
+					m.Write(r.Addr, r.Val)
 				}
 			}
 			for _, w := range watch {
@@ -82,7 +86,10 @@ func TestVerifReplay(t *testing.T) {
 					last[w] = v
 				}
 			}
-			if c.isFinished() || n >= 12 {
+			if c.isFinished() {
+				done++
+			}
+			if done >= %(ninstr)d || n >= 40 {
 				break
 			}
 		}
@@ -122,11 +129,10 @@ def replay_instruction(ctx, prop, ob, res, extra_setup=None):
         for e in evs:
             cons.append(z3.Implies(guard, in_ram(e[1])))
             if e[0] == "R":
-                for x in rd_addrs:
-                    cons.append(z3.Implies(guard, e[1] != x))
-                for x in wr_addrs:
-                    cons.append(z3.Implies(guard, e[1] != x))
-                rd_addrs.append(e[1])
+                for (x, cyc) in rd_addrs:
+                    if cyc == e[3]:
+                        cons.append(z3.Implies(guard, e[1] != x))
+                rd_addrs.append((e[1], e[3]))
             else:
                 wr_addrs.append(e[1])
     st, model = solve.check_sat(z3.And(*cons), 30000)
@@ -171,7 +177,7 @@ def replay_instruction(ctx, prop, ob, res, extra_setup=None):
             pred_writes.append({"Cycle": cyc, "Addr": addr, "Val": val})
             if addr not in watch:
                 watch.append(addr)
-    src = GO % {"setup": "\n\t".join(setup), "watch": ", ".join("0x%04x" % w for w in watch), "reads": ", ".join(reads)}
+    src = GO % {"setup": "\n\t".join(setup), "watch": ", ".join("0x%04x" % w for w in watch), "reads": ", ".join(reads), "ninstr": int((ob.info or {}).get("ninstr", 1))}
     rc, log, out = run_go_test(ctx, "github.com/scottyw/tetromino/gameboy/cpu", src)
     rep = {"inputs": dict(regs, ie=ie, iflag=iff, ime=ints["ime"], op=ob.info.get("op"), cb=ob.info.get("cb"),
                           reads=[r for r in reads]),
